@@ -1,7 +1,11 @@
-import Hs.Model.Vx
+import Hs.Drv.FilterVx
 namespace Hs.Drv.C08
 
-/-- requests `C08 <cmd> ...` (tokens after the property id) -/
-def handle (_ts : List String) : String := "bad-request"
+/-- requests `C08 <cmd> ...` (tokens after the property id):
+  `print F` → `ok H(text)` (`Filter::to_string`),  `parse H(text)` → `ok F` | `err` (`Filter::try_from`) -/
+def handle (ts : List String) : String :=
+  match Hs.Drv.FilterVx.handle ts with
+  | some r => r
+  | none => "bad-request"
 
 end Hs.Drv.C08
